@@ -102,7 +102,9 @@ def call(c):
         if f in ('unobj', 'unspec'):
             ids = c['ids']
             base = np.int64 if f == 'unobj' else np.uint64
-            if c.get('as_str'):
+            if c.get('as_str') == 'bytes':
+                arr = np.array([str(i).encode('ascii') for i in ids])       # dtype 'S': what FITS/ASCII tables deliver
+            elif c.get('as_str'):
                 arr = np.array([str(i) for i in ids])
             else:
                 arr = np.array(ids, dtype=base)
@@ -144,6 +146,7 @@ def call(c):
             return out
         if f in ('sweepobj', 'sweepspec'):
             i, lo, n, others = c['i'], c['lo'], c['n'], c['others']
+            bad = None
             cols = [np.full(n, int(o), dtype=np.int64) for o in others]
             cols[i] = np.arange(lo, lo + n, dtype=np.int64)
             if f == 'sweepobj':
@@ -167,8 +170,24 @@ def call(c):
                       np.array_equal(np.asarray(u.mjd, dtype=np.int64), m + 50000) and
                       np.array_equal(np.asarray(u.run2d, dtype=np.int64), r2) and
                       np.array_equal(np.asarray(u.line, dtype=np.int64), li + ix if not kw else (li if 'line' in kw else ix)))
-            return {'sum': checksum(ids), 'n': int(len(ids)), 'roundtrip': bool(rt),
-                    'first': int(ids[0]), 'last': int(ids[-1])}
+                if i == 3 and rt:
+                    # the string form of run2d, for every code of the sweep: 'vN_M_P' packs to the same ID as the
+                    # integer, and the default (string) unwrap gives back exactly that tag
+                    us = unwrap_specobjid(ids, run2d_integer=False)
+                    for j in range(n):
+                        code = int(r2[j])
+                        tag = 'v%d_%d_%d' % (code // 10000 + 5, (code % 10000) // 100, code % 100)
+                        one = sdss_specobjid(int(p[j]), int(fb[j]), int(m[j]) + 50000, tag)
+                        if int(one[0]) != int(ids[j]) or str(us.run2d[j]) != tag:
+                            rt = False
+                            bad = {'run2d_code': code, 'tag': tag, 'packed_from_tag': int(one[0]), 'packed_from_int': int(ids[j]),
+                                   'unwrapped_tag': str(us.run2d[j])}
+                            break
+            out = {'sum': checksum(ids), 'n': int(len(ids)), 'roundtrip': bool(rt),
+                   'first': int(ids[0]), 'last': int(ids[-1])}
+            if bad:
+                out['roundtrip_counterexample'] = bad
+            return out
         return {'err': 'BadCall'}
     except Exception as e:  # noqa: BLE001 - the error class is the observation
         return err(e)
